@@ -17,8 +17,16 @@ FAST = 'adsg_core/optimization/hierarchy/fast.py:'
 CMP = 'adsg_core/optimization/hierarchy/complete.py:'
 
 SUP = 'adsg_core/graph/sup/dsg.py:'
+CH = 'adsg_core/graph/choices.py:'
 
 CASES = [
+    (CH + 'get_mod_apply_selection_choice@until-incompatibility', 'break', 'added_edges = {get_edge(in_edge[0], target_option_node) for in_edge in in_edges}', 'added_edges = {get_edge(in_edge[1], target_option_node) for in_edge in in_edges}'),
+    (CH + 'get_mod_apply_selection_choice@until-incompatibility', 'break', '    removed_nodes.add(choice_node)\n', '    pass\n'),
+    (CH + 'get_mod_apply_selection_choice@until-incompatibility', 'break', 'if target_option_node not in option_nodes:', 'if target_option_node in option_nodes:'),
+    (CH + 'get_mod_apply_selection_choice@until-incompatibility', 'break', '    if len(option_nodes) == 0:\n        removed_nodes = {choice_node}', '    if len(option_nodes) <= 1:\n        removed_nodes = {choice_node}'),
+    (CH + 'get_mod_apply_selection_choice@until-incompatibility', 'break', 'list(start_nodes)[0], originating_node, EdgeType.INCOMPATIBILITY', 'originating_node, list(start_nodes)[0], EdgeType.INCOMPATIBILITY'),
+    (CH + 'get_mod_apply_selection_choice@until-incompatibility', 'break', '        if edge[0] == choice_node and edge[1] == target_option_node:\n            continue', '        if edge[0] == choice_node:\n            continue'),
+    (CH + 'get_mod_apply_selection_choice@until-incompatibility', 'keep', '    removed_edges = set()\n    removed_nodes = set()\n    in_edges = list(iter_in_edges(graph, choice_node))', '    in_edges = list(iter_in_edges(graph, choice_node))\n    removed_nodes = set()\n    removed_edges = set()'),
     (INC + 'get_incompatibility_deriving_nodes', 'break', "            option_decision_nodes.add(deriving_node)\n            continue", "            option_decision_nodes.add(deriving_node)\n            break"),
     (INC + 'get_incompatibility_deriving_nodes', 'break', 'if len(option_nodes.difference(deriving_nodes)) == 0:', 'if len(option_nodes.difference(deriving_nodes)) <= 1:'),
     (INC + 'get_incompatibility_deriving_nodes', 'break', "        if get_edge_type(edge) != EdgeType.DERIVES:\n            continue\n        deriving_node = edge[0]", "        if get_edge_type(edge) == EdgeType.INCOMPATIBILITY:\n            continue\n        deriving_node = edge[0]"),
